@@ -244,6 +244,21 @@ func c14SrcCells() []*scen.Cell {
 			}
 		}
 	}
+	// a :conv naming ANOTHER method of the interface whose own shape is unusable
+	for gi, g := range []string{"Gen0() *D", "GenNoRes(*S)", "GenInt(int) int", "GenTwo(*S, int) *D", "GenVar(...*S) *D"} {
+		name := g[:strings.IndexByte(g, '(')]
+		for merr := 0; merr < 2; merr++ {
+			note := "// :conv " + name + " A X"
+			sig := "Conv(*S) *D"
+			if merr == 1 {
+				sig = "Conv(*S) (*D, error)"
+			}
+			src := c14Prelude + "\ntype Convergen interface {\n\t" + note + "\n\t" + sig + "\n\t" + g + "\n}\n"
+			m := c14Meta{Part: "b", Keyword: "conv", Arg: g, NeedPos: true, Methods: []string{"Conv", name}}
+			m.BadLines = []int{lineOf(src, note+"\n"), lineOf(src, "\t"+sig), lineOf(src, "\t"+g)}
+			cells = append(cells, &scen.Cell{ID: fmt.Sprintf("c14b3_%d_%d", gi, merr), Family: "C14b-source-forms", Files: map[string]string{"setup.go": src}, Meta: m})
+		}
+	}
 	return cells
 }
 
@@ -378,6 +393,8 @@ func c14FileCells() []*scen.Cell {
 	cells = append(cells, &scen.Cell{ID: "c14e_missing-input", Family: "C14e-files", Files: map[string]string{"other.go": "package x\n"}, Args: []string{"nothere.go"}, Meta: c14Meta{Part: "e", Arg: "missing-input"}})
 	cells = append(cells, &scen.Cell{ID: "c14e_input-is-dir", Family: "C14e-files", Files: map[string]string{"sub/a.go": "package sub\n"}, Args: []string{"sub"}, Meta: c14Meta{Part: "e", Arg: "input-is-dir"}})
 	cells = append(cells, &scen.Cell{ID: "c14e_unknown-flag", Family: "C14e-files", Files: map[string]string{"setup.go": base + "type Convergen interface {\n\tC(*S) *D\n}\n"}, Args: []string{"-nosuchflag", "setup.go"}, Meta: c14Meta{Part: "e", Arg: "unknown-flag"}})
+	cells = append(cells, &scen.Cell{ID: "c14e_out-is-input", Family: "C14e-files", Files: map[string]string{"setup.go": base + "type Convergen interface {\n\tC(*S) *D\n}\n"}, Args: []string{"-out", "setup.go", "setup.go"}, Meta: c14Meta{Part: "e", Arg: "out-is-input"}})
+	cells = append(cells, &scen.Cell{ID: "c14e_out-is-input-dry", Family: "C14e-files", Files: map[string]string{"setup.go": base + "type Convergen interface {\n\tC(*S) *D\n}\n"}, Args: []string{"-dry", "-out", "./setup.go", "setup.go"}, Meta: c14Meta{Part: "e", Arg: "out-is-input"}})
 	cells = append(cells, &scen.Cell{ID: "c14e_no-args", Family: "C14e-files", Files: map[string]string{"setup.go": base}, Args: []string{}, Meta: c14Meta{Part: "e", Arg: "no-args"}})
 	return cells
 }
